@@ -1,5 +1,5 @@
 From Coq Require Import List NArith Arith Permutation Sorted.
-From SK Require Import lib.LGraph lib.Mono model.C11_Model proof.C11_Aut proof.C11_WL proof.C11_Dedup proof.C11_Main proof.C11_Comp proof.C11_VF2 proof.C11_Vocab proof.C11_Sig proof.C11_Anchor model.C11_State proof.C11_StateProof model.C11_Partial proof.C11_PartialProof proof.C11_PruneClass proof.C11_WLPart proof.C11_Idem model.C11_Keys model.C11_Attr proof.C11_AttrProof model.C11_Orbit proof.C11_OrbitProof proof.C11_Extend model.C11_Order proof.C11_OrderProof model.C11_Views proof.C11_ViewsProof proof.C11_Singleton proof.C11_Count.
+From SK Require Import lib.LGraph lib.Mono model.C11_Model proof.C11_Aut proof.C11_WL proof.C11_Dedup proof.C11_Main proof.C11_Comp proof.C11_VF2 proof.C11_Vocab proof.C11_Sig proof.C11_Anchor model.C11_State proof.C11_StateProof model.C11_Partial proof.C11_PartialProof proof.C11_PruneClass proof.C11_WLPart proof.C11_Idem model.C11_Keys model.C11_Attr proof.C11_AttrProof model.C11_Orbit proof.C11_OrbitProof proof.C11_Extend model.C11_Order proof.C11_OrderProof model.C11_Views proof.C11_ViewsProof proof.C11_Singleton proof.C11_Count proof.C11_WLMono model.C11_AttrFull.
 Import ListNotations.
 
 (** Vocabulary (definitions in proof/C11_Aut.v, written out here for the reader):
@@ -434,6 +434,21 @@ Theorem C11_aut_observable :
 Proof. exact (fun g => conj (run_aut_all_eq g) (run_aut_full_eq g)). Qed.
 Print Assumptions C11_aut_observable.
 
+(** ... and the one evaluated on every [aut] case since the attribute dictionaries are handed to the model: the same
+    composition on [to_graph DEF_NODE DEF_EDGE ag] (the graph of C11_configured_labels_only with the default keys), the
+    reactor's 4-attribute estimate on [to_graph WL4 DEF_EDGE ag]. *)
+Theorem C11_aut_observable_attr :
+  forall ag : agraph,
+    let g4 := to_graph WL4 DEF_EDGE ag in
+    let gx := to_graph DEF_NODE DEF_EDGE ag in
+    let a := analyze n_exact e_order gx in
+    run_aut_full_attr ag =
+    Tok.L [ Tok.L [ Tok.tN (a_count a); t_sets (a_orbits a); Tok.tlist (Tok.tset Tok.tN) (a_comps a);
+                    Tok.topt (Tok.tset Tok.tN) (a_anchor a); wl_obs n_wl g4; wl_obs n_exact gx ];
+            Tok.tbool (wfb gx); Tok.tlist t_maps (aut_lists gx); run_aut_oa gx; run_order gx ].
+Proof. exact run_aut_full_attr_eq. Qed.
+Print Assumptions C11_aut_observable_attr.
+
 (** Clause 2, second sentence, for the orbits the exact analysis REPORTS - every graph, connected or not (round 5).  For a
     disconnected graph the reported orbits are those of the components (component swaps excluded).  An automorphism of a
     component extends by the identity to an automorphism of the whole graph, so a reported orbit lies inside an orbit of
@@ -606,3 +621,18 @@ Theorem C11_prune_attr :
                       forall p h, In (p, h) (key x) <-> exists p', In (p', h) (key z) /\ p = s p')).
 Proof. exact prune_attr. Qed.
 Print Assumptions C11_prune_attr.
+
+(** The sweeps of the estimate (round 5; AutoEst max_iter).  Allowing one more sweep either changes nothing or applies
+    [refine_once] once more; the colour classes only get finer (equal colours with k + j permitted sweeps => equal colours
+    with k); and once a sweep changes nothing, every larger max_iter gives the same colouring.  With C11_wl_never_splits:
+    true orbits are contained in the classes after k + 1 sweeps, which are contained in the classes after k sweeps. *)
+Theorem C11_wl_sweeps :
+  forall (fn : nlab -> N) (fe : elab -> N) (g : graph) (k : nat), NoDup (node_ids g) ->
+    (wl fn fe g (S k) = wl fn fe g k \/ wl fn fe g (S k) = fst (refine_once fe g (wl fn fe g k))) /\
+    (forall u v, In u (node_ids g) -> In v (node_ids g) ->
+       col (wl fn fe g (S k)) u = col (wl fn fe g (S k)) v -> col (wl fn fe g k) u = col (wl fn fe g k) v) /\
+    (forall j u v, In u (node_ids g) -> In v (node_ids g) ->
+       col (wl fn fe g (k + j)) u = col (wl fn fe g (k + j)) v -> col (wl fn fe g k) u = col (wl fn fe g k) v) /\
+    (snd (refine_once fe g (wl fn fe g k)) = false -> forall j, wl fn fe g (k + j) = wl fn fe g k).
+Proof. exact wl_sweeps. Qed.
+Print Assumptions C11_wl_sweeps.
